@@ -27,7 +27,7 @@ RULE = (
     "history of FileWriter.write/cwrite calls is recorded with an on-disk snapshot after each call (separate descriptor); every crash point "
     "(after each write) must satisfy I1 complete final header, I2 byte-prefix of the final file, extension of the previous state by exactly the bytes written, I3 "
     "FilReader opens it and returns the first k samples; I4 the file is complete when the call returns (before any gc); plus every byte-length "
-    "truncation of each final file from hdrlen upwards is opened and read; every other history starts from a non-initial state (the output names already exist and hold a longer stale product). thorough adds the syscall history (strace) replayed into a "
+    "truncation of each final file from hdrlen upwards is opened and read; every history is also started from a non-initial state (the output names already exist and hold a longer stale product) and run on data whose last blocks are all zero; two writers produce a 24 MiB product in 24 blocks (sizes after every write, three crash states read back). thorough adds the syscall history (strace) replayed into a "
     "byte-array model: model == real file, no write below EOF, no truncate/rename. Non-trivial = crash states with 0 < k < n"
 )
 ASSUMPTIONS = [
@@ -35,7 +35,7 @@ ASSUMPTIONS = [
     "the state before the header write (empty file right after open) is not a state 'after a write' and is not judged",
     "a writer that delays whole blocks but stays prefix-consistent satisfies the statement (k is just smaller) and is not flagged",
 ]
-REQUIRED_OUTCOMES = ["crash_state/ok", "crash_state/partial", "crash_state/over_existing_longer_file", "return_complete/ok", "truncation/ok", "truncation/mid_sample"]
+REQUIRED_OUTCOMES = ["crash_state/ok", "crash_state/partial", "crash_state/over_existing_longer_file", "crash_state/all_zero_tail_blocks", "crash_state/big_product", "return_complete/ok", "truncation/ok", "truncation/mid_sample"]
 
 WRITERS = ["extract_samps", "extract_chans", "extract_bands", "apply_channel_mask", "clean_rfi", "invert_freq", "downsample", "subband",
            "remove_zerodm", "requantize", "block.to_file", "ts.to_tim", "fs.to_spec"]
@@ -56,6 +56,9 @@ def shards(tier: str, seed: int) -> list:
         for nbits in (8, 32):
             for w in WRITERS:
                 out.append({"kind": "syscalls", "writer": w, "nbits": nbits})
+    # scale lane: products of 24 MiB written in 24 blocks (anything decided by the size of the output - preallocation, a different write path - shows here)
+    for w in (("extract_samps", "invert_freq") if tier == "quick" else ("extract_samps", "invert_freq", "apply_channel_mask", "requantize", "downsample")):
+        out.append({"kind": "big", "writer": w, "nbits": 8})
     return out
 
 
@@ -98,7 +101,7 @@ def _run_writer(fil, writer, g, wd, tag="o"):
     raise AssertionError(writer)
 
 
-def _input(wd, nbits, seed):
+def _input(wd, nbits, seed, zero_tail=False):
     from sigpyproc.readers import FilReader
 
     if nbits == 4:
@@ -107,6 +110,9 @@ def _input(wd, nbits, seed):
         X = (100 + fx.label_data(N, C, 8, seed + 3).astype(np.int64) % 41 - 20).astype(np.uint8)
     else:
         X = fx.label_data(N, C, 32, seed)
+    if zero_tail:
+        X = X.copy()
+        X[N // 2 :] = 0  # the last blocks of the product are entirely zero (blanked data): they must still reach the file, in order
     paths = fx.make_fileset(wd, X, nbits, [N], fch1=1500.0, foff=-50.0, tsamp=1e-3, stem="in")
     return FilReader(paths)
 
@@ -203,16 +209,18 @@ def run_shard(shard: dict, ctx, res, only=None) -> None:
     warnings.filterwarnings("ignore")
     if shard["kind"] == "syscalls":
         return _syscalls(shard, ctx, res, only)
+    if shard["kind"] == "big":
+        return _big(shard, ctx, res, only)
     wd = ctx.workdir("c20")
     writer, nbits = shard["writer"], shard["nbits"]
     site = f"writer:{writer}"
     truncated_done = False
     gl = list(shard.get("gulps", (1, 2, 3, N // 2, N, 10 * N)))
-    for g, stale in [(g, st) for g in gl for st in (False, True)]:
-        if only is not None and only not in (g, [g, stale]):
+    for g, stale, ztail in [(g, st, zt) for g in gl for st, zt in ((False, False), (True, False), (False, True))]:
+        if only is not None and only not in (g, [g, stale], [g, stale, ztail]):
             continue
-        case = {"shard": shard, "inner": [g, stale]}
-        fil = _input(wd, nbits, ctx.seed)
+        case = {"shard": shard, "inner": [g, stale, ztail]}
+        fil = _input(wd, nbits, ctx.seed, ztail)
         if stale:
             # non-initial state: the output names already exist and hold a longer, stale product (a previous run plus 4099 bytes)
             try:
@@ -222,7 +230,7 @@ def run_shard(shard: dict, ctx, res, only=None) -> None:
                         fp.write(b"\xa5" * (size + 4099))
             except Exception:  # noqa: BLE001, S112
                 continue
-            fil = _input(wd, nbits, ctx.seed)
+            fil = _input(wd, nbits, ctx.seed, ztail)
         with _Recorder() as rec:
             try:
                 outs = _run_writer(fil, writer, g, wd)
@@ -275,6 +283,8 @@ def run_shard(shard: dict, ctx, res, only=None) -> None:
                 res.outcome("crash_state/ok")
                 if stale:
                     res.outcome("crash_state/over_existing_longer_file")
+                if ztail:
+                    res.outcome("crash_state/all_zero_tail_blocks")
                 if 0 < k < Xfin.shape[0]:
                     res.outcome("crash_state/partial")
                     res.nontrivial += 1
@@ -302,6 +312,82 @@ def run_shard(shard: dict, ctx, res, only=None) -> None:
             except OSError:
                 pass
     res.sample({"shard": shard, "inner": 2, "history_example": "open, write(header), cwrite(block 0), cwrite(block 1), ..."}, cap=1)
+
+
+def _big(shard, ctx, res, only):
+    """A 24 MiB product: sizes and prefixes after every write (read-back of every crash state would cost 24 x 24 MiB; the first, middle and last
+    partial states are read back)."""
+    from sigpyproc.readers import FilReader
+
+    wd = ctx.workdir("c20b")
+    NB, CB, g = 24576, 1024, 1024
+    writer = shard["writer"]
+    site = f"writer:{writer}"
+    case = {"shard": shard, "inner": g}
+    h = fx.label_data(NB, CB, 8, ctx.seed)
+    paths = fx.make_fileset(wd, h, 8, [NB], fch1=1500.0, foff=-0.25, tsamp=1e-3, stem="bigin")
+    fil = FilReader(paths)
+    out = str(wd / "big.fil")
+    kw = {"gulp": g, "quiet": True, "description": "vf", "outfile_name": out}
+    res.evaluations += 1
+
+    class _R(_Recorder):
+        @staticmethod
+        def snap(path):  # sizes and a short head/tail only: full snapshots of a 24 MiB file after each of 24 writes are not needed for I1/I2
+            return os.path.getsize(path)
+
+    with _R() as rec:
+        try:
+            if writer == "extract_samps":
+                fil.extract_samps(1, NB - 2, **kw)
+            elif writer == "invert_freq":
+                fil.invert_freq(**kw)
+            elif writer == "apply_channel_mask":
+                fil.apply_channel_mask(np.arange(CB) % 7 == 0, 0, **kw)
+            elif writer == "requantize":
+                fil.requantize(32, **kw)
+            else:
+                fil.downsample(tfactor=2, ffactor=1, **kw)
+        except Exception as e:  # noqa: BLE001
+            res.violation({"site": site, "symptom": f"raised {type(e).__name__}", "big": True}, case, repr(e))
+            return
+        size_at_return = os.path.getsize(out)
+    del fil
+    gc.collect()
+    final = open(out, "rb").read()
+    if size_at_return != len(final):
+        res.violation({"site": site, "symptom": "file on disk is not complete when the call returns", "big": True}, case, f"{size_at_return} bytes at return, {len(final)} after finalisation")
+        return
+    res.outcome("return_complete/ok")
+    hl, nb, nc, Xfin = _decode(final)
+    writes = [w for w in rec.hist.get(out, []) if w[0] != "open"]
+    if len(writes) < 3 or writes[0][0] != "write":
+        res.violation({"site": site, "symptom": "no header write recorded before data", "big": True}, case, f"{[w[:2] for w in writes[:3]]}")
+        return
+    prev = 0
+    for j, (kind, n, size) in enumerate(writes):
+        res.evaluations += 1
+        grew = n if kind == "write" else n * nb // 8
+        if size != prev + grew:
+            res.violation({"site": site, "symptom": "file length is not the number of bytes written so far (stale or missing bytes)", "at": "between writes", "big": True}, case,
+                          f"after call {j} ({kind} of {n}): {size} bytes on disk, {prev} before + {grew} written")
+            return
+        prev = size
+        res.outcome("crash_state/ok")
+        res.count("crash_states")
+    if prev != len(final):
+        res.violation({"site": site, "symptom": "bytes reached the file outside FileWriter.write/cwrite after the last recorded write", "big": True}, case, "")
+        return
+    # read back three crash states (I2/I3): after the first data block, in the middle, one block before the end
+    sizes = [w[2] for w in writes]
+    for j in (1, len(writes) // 2, len(writes) - 2):
+        res.evaluations += 1
+        if not _check_state(final[: sizes[j]], final, hl, Xfin, nb, nc, wd, res, case, site, "between writes"):
+            return
+        res.outcome("crash_state/partial")
+        res.outcome("crash_state/big_product")
+        res.nontrivial += 1
+    os.unlink(out)
 
 
 # ------------------------------------------------------------------------------------------------
